@@ -245,23 +245,33 @@ def run_shard(spec, seed, count, tag):
     elif res['probe_rc'] not in (0, None, -9) and count > 0 and real_code_panic(res['err']):
         # a line-protocol probe died inside the real code: find the first case that kills it (every probe derives its
         # cases from the seed in order, so a shorter run is a prefix of a longer one)
+        # bounded: a run may take twice as long as the one that died, the whole search three minutes (a nondeterministic
+        # failure - a data race - may hang instead of dying; then the search gives up and the crash is reported as such)
+        one_run = max(10.0, 2 * res['probe_s'] + 5)
+        deadline = time.time() + 180
+
         def dies(k):
+            if time.time() > deadline:
+                raise TimeoutError()
             try:
                 r2 = subprocess.run([exe, str(seed), str(k), ops + '.bisect', impl + '.bisect'] +
                                     [str(x) for x in spec.get('extra', [])], cwd=d, env=GOENV, stdout=subprocess.DEVNULL,
-                                    stderr=subprocess.DEVNULL, timeout=spec.get('timeout', PROBE_TIMEOUT[0]), preexec_fn=limits)
+                                    stderr=subprocess.DEVNULL, timeout=one_run, preexec_fn=limits)
                 return r2.returncode != 0
             except subprocess.TimeoutExpired:
-                return True
+                raise TimeoutError()
         lo, hi = 0, count          # survives lo cases, dies within hi
-        if dies(hi):
-            while hi - lo > 1:
-                mid = (lo + hi) // 2
-                if dies(mid):
-                    hi = mid
-                else:
-                    lo = mid
-            res['current_case'] = '%d/%d (seed / number of the case, counted from 1, in that probe run)' % (seed, hi)
+        try:
+            if dies(hi):
+                while hi - lo > 1:
+                    mid = (lo + hi) // 2
+                    if dies(mid):
+                        hi = mid
+                    else:
+                        lo = mid
+                res['current_case'] = '%d/%d (seed / number of the case, counted from 1, in that probe run)' % (seed, hi)
+        except TimeoutError:
+            pass
         for x in (ops + '.bisect', impl + '.bisect', impl + '.bisect.oracle', impl + '.bisect.stats'):
             if os.path.exists(x):
                 os.remove(x)
